@@ -68,6 +68,12 @@ NAME_PAIRS = [
     ("255-octets-first", _long_name("y", "x"), _long_name("z", "x")),
     ("255-vs-short", _long_name("x", "x"), "x."),
     ("len-mod-256", "abc.", "\\001" * 63 + ".abcdef."),   # presentation lengths 4 and 260
+    # escaped octets make the presentation form up to 4x longer than the wire form: equal in the first 255
+    # characters (and far beyond), different only in the last octet of a 255-octet name / behind character 255
+    ("escaped-255-octets-last", ".".join(["\\001" * 63] * 3 + ["\\001" * 60 + "\\002"]) + ".",
+     ".".join(["\\001" * 63] * 3 + ["\\001" * 60 + "\\003"]) + "."),
+    ("escaped-differs-behind-255", "\\001" * 63 + "." + "\\001" * 10 + "a.", "\\001" * 63 + "." + "\\001" * 10 + "b."),
+    ("escaped-same-length-mid", "\\001" * 63 + ".a." + "\\001" * 20 + ".", "\\001" * 63 + ".b." + "\\001" * 20 + "."),
 ]
 TYPE_TRIPLES = [
     ("mod256", 1, 257, 513), ("mod256-high", 1, 65281, 257), ("zero-max", 0, 65535, 255), ("high-byte-equal", 256, 257, 258),
